@@ -98,3 +98,13 @@ def multi_channel_same_basis(doc: dict, params: dict) -> bool:
 
 
 MATCHERS["multi_channel_same_basis"] = multi_channel_same_basis
+
+
+def detuning_map_3d(doc: dict, params: dict) -> bool:
+    """A detuning map (explicit or through an Ising-mode SLM mask) on a 3D register."""
+    if doc["world"]["register"].get("dim", 2) != 3:
+        return False
+    return any(r["op"]["op"] in ("config_detuning_map", "config_slm_mask") for r in doc["trace"])
+
+
+MATCHERS["detuning_map_3d"] = detuning_map_3d
